@@ -82,6 +82,16 @@ pub fn set_rng(p: Option<Prng>) {
     RNG.with(|r| *r.borrow_mut() = p);
     RNG_BYTES.with(|c| c.set(0));
 }
+/// Runs `f` with the interposed RNG temporarily replaced by `p` (used to make harness-side
+/// record signing a pure function of its parameters, independent of the run's SUT stream).
+pub fn with_rng<T>(p: Prng, f: impl FnOnce() -> T) -> T {
+    let saved = RNG.with(|r| r.borrow_mut().replace(p));
+    let bytes = RNG_BYTES.with(|c| c.get());
+    let out = f();
+    RNG.with(|r| *r.borrow_mut() = saved);
+    RNG_BYTES.with(|c| c.set(bytes));
+    out
+}
 pub fn rng_bytes_served() -> u64 {
     RNG_BYTES.with(|c| c.get())
 }
